@@ -333,14 +333,14 @@ def jwsFmt (w : World) (argv : List String) : Res :=
       let detached := lastOpt os 'I'
       let detach := lastOpt os 'O'
       let out := (lastOpt os 'o').getD "-"
-      -- compact needs exactly one signature: flattened, or a one-element list of objects with
-      -- nothing but (optionally) "protected" ... (`{s:[{s?s}!]}`)
+      -- compact needs exactly one signature: flattened, or a one-element list whose element is an object
+      -- (`{s:[{s?s}!]}`: the `!` makes the *list* strict — exactly one element —, not the object in it)
       let single (j : Json) (k : String) (required : Bool) : Option (Option String) :=
         match j.get? "signatures" with
         | some (.arr [.obj one]) =>
           (match lookup k one with
-           | some (.str s) => if one.all (fun p => p.1 == k) then some (some s) else none
-           | none => if required || !one.isEmpty then none else some none
+           | some (.str s) => some (some s)
+           | none => if required then none else some none
            | some _ => none)
         | _ => none
       let protO : Option (Option String) :=
@@ -371,6 +371,83 @@ def jwsFmt (w : World) (argv : List String) : Res :=
           else
             emit out (writeJson "payload" (if detach.isSome then none else some text)
               (match obj with | .obj k => .obj (delKV "payload" k) | o => o)) r0
+      | _, _ => fail
+    | _ => fail
+
+/-! ### jose jwe fmt -/
+
+/-- what the compact conversion prints for one leading field (cmd/jwe/fmt.c): the value in the single
+    element of "recipients" (`{s:[{s?s}!]}`, only for the field that has a plural), else the top-level
+    member (`{s?s}`: absent = empty text, another type = failure); outer `none` = failure -/
+def compactFieldOf (obj : Json) (k : String) (plural : Option String) : Option String :=
+  let fromList : Option (Option String) :=
+    match plural.bind obj.get? with
+    | some (.arr [.obj one]) =>
+      (match lookup k one with
+       | some (.str s) => some (some s)
+       | none => some none
+       | some _ => none)
+    | _ => none
+  match fromList with
+  | some v => some (v.getD "")
+  | none => (optMember obj k).map (·.getD "")
+
+/-- the authentication tag for compact output: top level (`{s:s}`), else in the single recipient -/
+def compactTagOf (obj : Json) : Option String :=
+  match obj.get? "tag" with
+  | some (.str s) => some s
+  | _ =>
+    match obj.get? "recipients" with
+    | some (.arr [.obj one]) => (match lookup "tag" one with | some (.str s) => some s | _ => none)
+    | _ => none
+
+/-- `jose jwe fmt -i JWE [-I CT] [-o JWE] [-O CT] [-c]` -/
+def jweFmt (w : World) (argv : List String) : Res :=
+  match parseOpts ['i', 'I', 'o', 'O'] argv with
+  | none => fail
+  | some os =>
+    match (lastOpt os 'i').map (inputSet w jweFields) with
+    | some (some inp) =>
+      if (optsOf os 'I').any (fun f => (readSrc w f).isNone) then fail else
+      let compact := hasFlag os 'c'
+      let detached := lastOpt os 'I'
+      let detach := lastOpt os 'O'
+      let out := (lastOpt os 'o').getD "-"
+      -- compact output needs exactly one recipient: no list at all, or a list of one
+      let countOk : Bool :=
+        match inp.obj.get? "recipients" with
+        | none => true
+        | some (.arr [_]) => true
+        | some _ => false
+      if compact && !countOk then fail else
+      let head : Option (List String) :=
+        if compact then
+          match compactFieldOf inp.obj "protected" none, compactFieldOf inp.obj "encrypted_key" (some "recipients"),
+                compactFieldOf inp.obj "iv" none with
+          | some a, some b, some c => some [a, b, c]
+          | _, _, _ => none
+        else some []
+      match head, bodySource w inp detached "ciphertext" true with
+      | some hd, some body =>
+        -- the ciphertext text is decoded and (unless detached to a file) encoded again on its way out
+        if detached.isNone && (B64.decode body).isNone then fail else
+        let text := textOf detached.isSome body
+        let obj := withLastField inp "tag"
+        let pre : Option Res :=
+          match detach with
+          | none => some { status := 0 }
+          | some f => (rawOf detached.isSome body).map fun raw => emit f raw { status := 0 }
+        match pre with
+        | none => fail
+        | some r0 =>
+          if compact then
+            match compactTagOf obj with
+            | some tg =>
+              emit out (bs (".".intercalate hd ++ ".") ++ (if detach.isSome then [] else text) ++ bs ("." ++ tg)) r0
+            | none => fail
+          else
+            emit out (writeJson "ciphertext" (if detach.isSome then none else some text)
+              (match obj with | .obj k => .obj (delKV "ciphertext" k) | o => o)) r0
       | _, _ => fail
     | _ => fail
 
